@@ -21,7 +21,159 @@ import (
 	"github.com/saucelabs/forwarder/internal/martian"
 )
 
-func init() { commands["c11"] = c11Run }
+func init() {
+	commands["c11"] = c11Run
+	commands["c11-run"] = c11RunLevel
+}
+
+// c11RunLevel: graceful shutdown of the whole HTTPProxy (LifecycleRun.tla). Real clients sit in the phases the real
+// listener stack adds (PROXY header, TLS handshake, request head, idle, in flight) when Run's context is cancelled;
+// when Run has returned the in-flight exchange has been answered, every client connection has been closed, a late
+// client is not served and the listener / dialer gauges are back at zero.
+func c11RunLevel(e *env) {
+	type rcase struct {
+		Stacking string   `json:"stacking"`
+		Clients  []string `json:"clients"`
+		When     string   `json:"when"`
+	}
+	var cases []rcase
+	e.eachCase(func(raw json.RawMessage) {
+		var c rcase
+		if err := json.Unmarshal(raw, &c); err != nil || c.Stacking == "" {
+			return
+		}
+		cases = append(cases, c)
+	})
+	var wg sync.WaitGroup
+	sem := make(chan struct{}, 8)
+	for i := range cases {
+		i := i
+		wg.Add(1)
+		sem <- struct{}{}
+		go func() {
+			defer wg.Done()
+			defer func() { <-sem }()
+			c := cases[i]
+			res := map[string]any{"ok": true, "stacking": c.Stacking, "clients": c.Clients, "when": c.When, "idx": i}
+			fail := func(why string) {
+				if res["ok"] == true {
+					res["ok"], res["why"] = false, why
+				}
+			}
+			env := newC15EnvIdle(10*time.Second, c.Stacking)
+			f := env.fwds[c.Stacking]
+			defer env.origin.close()
+			defer env.originTLS.close()
+			const slow = 900 * time.Millisecond
+			slowPath := fmt.Sprintf("/slow-run-%d", i)
+			env.slow.Store(slowPath, slow)
+			env.slow.Store("http://origin.test"+slowPath, slow)
+			phases := c15Phases[c.Stacking]
+			idxOf := func(ph string) int {
+				for k, p := range phases {
+					if p == ph {
+						return k + 1
+					}
+				}
+				return len(phases)
+			}
+			type cli struct {
+				kind string
+				w    *walker
+			}
+			var clis []cli
+			inflightDone := make(chan error, 1)
+			for _, k := range c.Clients {
+				var w *walker
+				switch k {
+				case "silent":
+					w = env.walk(c.Stacking, 1, false, "/x", 0)
+				case "partial":
+					up := 1
+					if phases[0] == "idle" {
+						up = 2 // a partial request head
+					}
+					w = env.walk(c.Stacking, up, true, "/x", 0)
+				case "idle":
+					w = env.walk(c.Stacking, len(phases), false, fmt.Sprintf("/ok-run-%d", i), 0)
+				case "inflight":
+					w = env.walk(c.Stacking, idxOf("rt"), false, slowPath, 0)
+				}
+				if w.err != nil {
+					fail(k + " client could not reach its phase: " + w.err.Error())
+					f.stop()
+					e.emit(res)
+					return
+				}
+				clis = append(clis, cli{k, w})
+				if k == "inflight" {
+					go func() {
+						w.conn.SetReadDeadline(time.Now().Add(8 * time.Second))
+						r, err := readWireResponse(w.br, "GET")
+						if err == nil && r.Status != 200 {
+							err = fmt.Errorf("status %d", r.Status)
+						}
+						inflightDone <- err
+					}()
+				}
+			}
+			if c.When == "after-limits" {
+				time.Sleep(650 * time.Millisecond) // PROXY header, TLS handshake and request head limits (250 / 550 / 400 ms) have fired
+			} else {
+				time.Sleep(60 * time.Millisecond)
+			}
+			before := gather(f.reg)
+			res["active_before"] = before.active
+			t0 := time.Now()
+			f.stop()
+			took := time.Since(t0)
+			res["shutdown_ms"] = took.Milliseconds()
+			if !f.returned {
+				fail(fmt.Sprintf("Run had not returned %v after its context was cancelled", took))
+			}
+			for _, cl := range clis {
+				if cl.kind == "inflight" {
+					select {
+					case err := <-inflightDone:
+						if err != nil {
+							fail("the exchange in flight when the shutdown began was not completed: " + err.Error())
+						}
+					case <-time.After(2 * time.Second):
+						fail("the exchange in flight when the shutdown began was never answered")
+					}
+				}
+				if _, closed := cl.w.waitClosed(1500 * time.Millisecond); !closed {
+					fail("connection of the " + cl.kind + " client still open after Run returned")
+				}
+				cl.w.conn.Close()
+			}
+			// a late client is not served
+			if lc, err := net.DialTimeout("tcp", f.addr, time.Second); err == nil {
+				lc.SetDeadline(time.Now().Add(500 * time.Millisecond))
+				lc.Write([]byte("GET http://origin.test/late HTTP/1.1\r\nHost: origin.test\r\n\r\n"))
+				buf := make([]byte, 16)
+				if n, _ := lc.Read(buf); n > 0 && c.Stacking == "plain" {
+					fail(fmt.Sprintf("a client connecting after Run returned was answered: %q", buf[:n]))
+				}
+				lc.Close()
+			}
+			time.Sleep(30 * time.Millisecond)
+			after := gather(f.reg)
+			res["active_after"], res["dial_active_after"], res["accepted"] = after.active, after.dialActive, after.accepted
+			if after.active != 0 {
+				fail(fmt.Sprintf("listener reports %v open connections after Run returned (%v accepted)", after.active, after.accepted))
+			}
+			if after.dialActive != 0 {
+				fail(fmt.Sprintf("dialer reports %v open connections after Run returned", after.dialActive))
+			}
+			if after.inflight != 0 {
+				fail(fmt.Sprintf("%v requests reported in flight after Run returned", after.inflight))
+			}
+			e.emit(res)
+		}()
+	}
+	wg.Wait()
+}
 
 type c11Action struct {
 	A string `json:"a"`
